@@ -44,6 +44,8 @@ pub enum TOp {
     WriteSecRo(u8),
     NextNow,
     Poll,
+    /// poll a fresh `next_ref()` future once (the guard, if any, is read and dropped)
+    PollNextRef,
     /// poll up to n times, waiting (briefly) to be woken after each Pending (free-running only)
     WaitNext(u8),
     DropOwner,
@@ -257,12 +259,20 @@ impl ThreadCtx {
         self.owners.first().or(self.upgraded.first())
     }
     fn poll(&mut self, clock: &AtomicU64) -> PR {
+        self.poll_via(clock, false)
+    }
+    fn poll_via(&mut self, clock: &AtomicU64, next_ref: bool) -> PR {
         let Some(sub) = self.sub.as_mut() else { return PR::Pending };
         let flag = Flag::new();
         let w = flag_waker(&flag);
         let mut cx = Context::from_waker(&w);
         let inv = clock.fetch_add(1, Ordering::SeqCst);
-        let r = Pin::new(sub).poll_next(&mut cx);
+        let r: Poll<Option<u64>> = if next_ref {
+            let fut = std::pin::pin!(sub.next_ref());
+            std::future::Future::poll(fut, &mut cx).map(|o| o.map(|g| *g))
+        } else {
+            Pin::new(sub).poll_next(&mut cx)
+        };
         let prev = self.last_pending.take();
         let res = match r {
             Poll::Pending => PR::Pending,
@@ -371,6 +381,9 @@ impl ThreadCtx {
             }
             TOp::Poll => {
                 self.poll(clock);
+            }
+            TOp::PollNextRef => {
+                self.poll_via(clock, true);
             }
             TOp::WaitNext(n) => {
                 if !free {
@@ -834,6 +847,33 @@ pub fn judge(case: &ThrCase, out: &RunOut, prop: Prop) -> R<CaseReport> {
             }
         }
     }
+    // C04/C01: a value that was written exactly once is yielded by the polls of one subscriber at
+    // most once (each update is observed once; next_now/get hand out values without this limit)
+    {
+        let mut written: std::collections::HashMap<u64, u32> = std::collections::HashMap::new();
+        for r in &out.recs {
+            match &r.kind {
+                Kind::Set { v, .. } | Kind::WriteSec { new: v, .. } | Kind::SetIfNotEq { v, prev: Some(_) } => *written.entry(*v).or_default() += 1,
+                _ => {}
+            }
+        }
+        let has_update = out.recs.iter().any(|r| matches!(r.kind, Kind::Update { .. }));
+        if !has_update {
+            let mut seen: HashSet<(usize, u64)> = HashSet::new();
+            for r in &out.recs {
+                if let Kind::Poll { sub, res: PR::Item(v), .. } = &r.kind {
+                    rep.checks += 1;
+                    if written.get(v) == Some(&1) && !seen.insert((*sub, *v)) {
+                        return fail(
+                            prop,
+                            &[C04, C01],
+                            format!("subscriber {sub} was handed the value {v} by two polls although it was written only once ({})", sched()),
+                        );
+                    }
+                }
+            }
+        }
+    }
     // C04/C01: a subscriber obtained from subscribe() is ready only for updates made after it:
     // if every notifying write had *responded* before subscribe() was even invoked (or there is
     // none), no later poll of that subscriber may yield an item
@@ -1029,6 +1069,7 @@ pub fn op(directed: bool) -> BoxedStrategy<TOp> {
             3 => Just(TOp::DropOwner),
             2 => Just(TOp::Upgrade),
             3 => Just(TOp::Poll),
+            1 => Just(TOp::PollNextRef),
             2 => Just(TOp::Set),
             1 => Just(TOp::Get),
             1 => Just(TOp::NextNow),
@@ -1046,6 +1087,7 @@ pub fn op(directed: bool) -> BoxedStrategy<TOp> {
             2 => n().prop_map(TOp::WriteSecRo),
             2 => Just(TOp::NextNow),
             2 => Just(TOp::Poll),
+            2 => Just(TOp::PollNextRef),
             2 => (1u8..4).prop_map(TOp::WaitNext),
             1 => Just(TOp::DropOwner),
             1 => Just(TOp::Upgrade),
